@@ -505,7 +505,8 @@ impl Grid {
                 .unwrap()
                 .is_wide_continuation();
         let row = self.current_row_mut();
-        for _ in 0..count {
+        // inserting more cells than the row is wide changes nothing further
+        for _ in 0..count.min(size.cols) {
             if wide {
                 row.get_mut(pos.col).unwrap().set_wide_continuation(false);
             }
@@ -537,7 +538,8 @@ impl Grid {
     }
 
     pub fn insert_lines(&mut self, count: u16) {
-        for _ in 0..count {
+        // inserting more lines than the screen is tall changes nothing further
+        for _ in 0..count.min(self.size.rows) {
             self.rows.remove(usize::from(self.scroll_bottom));
             self.rows.insert(usize::from(self.pos.row), self.new_row());
             // self.scroll_bottom is maintained to always be a valid row
@@ -572,7 +574,9 @@ impl Grid {
     }
 
     pub fn scroll_down(&mut self, count: u16) {
-        for _ in 0..count {
+        // scrolling by more lines than the screen is tall changes nothing
+        // further
+        for _ in 0..count.min(self.size.rows) {
             self.rows.remove(usize::from(self.scroll_bottom));
             self.rows
                 .insert(usize::from(self.scroll_top), self.new_row());
